@@ -835,6 +835,12 @@ func runC15(env *core.Env) {
 		}
 		secs := int64(rng.Intn(86400))
 		micros := int64(rng.Intn(1000000))
+		switch k % 9 {
+		case 4:
+			micros = 0 // a fraction of all zeros is still a fraction: the precision says so
+		case 7:
+			micros = []int64{500000, 1000, 999000, 100, 10}[k%5]
+		}
 		tz := tzs[rng.Intn(len(tzs))]
 		if days <= -719162 || days >= 2932896 {
 			tz = "Z" // an offset would push the local date outside 0001..9999: not a FHIR value
